@@ -1,8 +1,9 @@
 import Driver.Util
 import Bifrost.Model.Links
 import Bifrost.Model.LinksConc
+import Bifrost.Model.LinksGen
 namespace Driver.Links
-open Bifrost Bifrost.Links Driver
+open Bifrost Bifrost.Links Bifrost.LinksGen Driver
 
 /-- ops: `start:<lp>`, `shutdown`, `est:<id>:<uuid>:<remote>`, `lost:<id>:<uuid>:<remote>` separated by `,`. -/
 def parseOp (s : String) : Option Op :=
@@ -15,6 +16,20 @@ def parseOp (s : String) : Option Op :=
 
 def parseOps (s : String) : Option (List Op) :=
   if s = "_" then some [] else (s.splitOn ",").mapM parseOp
+
+/-- histories may contain `estvia:<g>:<id>:<uuid>:<remote>`: a link reported through the handler of
+execution number `g` (Bifrost.LinksGen) -/
+def parseGOp (s : String) : Option GOp :=
+  match s.splitOn ":" with
+  | ["estvia", g, i, u, r] => do some (.estVia (← g.toNat?) ⟨← i.toNat?, ← u.toNat?, ← r.toNat?⟩)
+  | _ => (parseOp s).map GOp.op
+
+def parseGOps (s : String) : Option (List GOp) :=
+  if s = "_" then some [] else (s.splitOn ",").mapM parseGOp
+
+def runG (ops : List GOp) : State := (grun true ops).s
+
+def parseGBatch (s : String) : Option (List (List GOp)) := (s.splitOn "/").mapM parseGOps
 
 def sortNat (l : List Nat) : List Nat := (l.toArray.qsort (· < ·)).toList
 
@@ -35,19 +50,19 @@ def dedupStr (l : List String) : List String :=
 def handle (op : String) (args : List String) : Option String :=
   match op with
   | "hist" => do
-    let ops ← (kv args "ops").bind parseOps
-    let s := run ops
-    let sp := specRun ops
-    some s!"live={ids s.links} bypeer={ids s.peerLinks} closed={showNatList (sortNat (dedup s.closed))} spec={ids sp.live} specclosed={showNatList (sortNat (dedup sp.closed))}"
+    let ops ← (kv args "ops").bind parseGOps
+    let s := runG ops
+    let sp := specRun (lower {} ops)
+    some s!"live={ids s.links} bypeer={ids s.peerLinks} closed={showNatList (sortNat (dedup s.closed))} spec={ids sp.live} specclosed={showNatList (sortNat (dedup (staleIds {} ops ++ sp.closed)))}"
   | "resolve" => do
-    let ops ← (kv args "ops").bind parseOps
+    let ops ← (kv args "ops").bind parseGOps
     let src ← kvNat args "src"
     let dst ← kvNat args "dst"
-    some s!"ok {ids (resolveEstablishLink (run ops) src dst)}"
+    some s!"ok {ids (resolveEstablishLink (runG ops) src dst)}"
   | "get" => do
-    let ops ← (kv args "ops").bind parseOps
+    let ops ← (kv args "ops").bind parseGOps
     let p ← kvNat args "p"
-    some s!"ok {ids (getPeerLinks (run ops) p)}"
+    some s!"ok {ids (getPeerLinks (runG ops) p)}"
   | "linearize" => do
     -- all distinct final states of the batch `g` delivered after the sequential prefix `pre`
     let pre ← (kv args "pre").bind parseOps
@@ -57,10 +72,10 @@ def handle (op : String) (args : List String) : Option String :=
     some s!"n={fs.length} states={"|".intercalate (dedupStr (fs.map showState))}"
   | "resolvebus" => do
     -- several controllers on one bus: `cs` = their histories separated by `/`
-    let cs ← (kv args "cs").bind parseBatch
+    let cs ← (kv args "cs").bind parseGBatch
     let src ← kvNat args "src"
     let dst ← kvNat args "dst"
-    let r := resolveBus (cs.map run) src dst
+    let r := resolveBus (cs.map runG) src dst
     let enc := sortNat (r.map fun p => p.1 * 1000000 + p.2.id)
     let items := enc.map fun n => s!"{n / 1000000}:{n % 1000000}"
     some s!"ok {if items.isEmpty then "_" else ",".intercalate items}"
